@@ -1,5 +1,4 @@
 import BPT.Rust.NoUB
-import BPT.Generated.Tie
 /-
   C15 — Rust safe node/arena helper API cannot be used to reach undefined behaviour.
 
